@@ -32,7 +32,7 @@ WEIGHTS = {
 def cases(tier, seed):
     rng = random.Random(f"C14/{seed}")
     nmax, count = (7, 9000) if tier == "quick" else (8, 50000)
-    cl = [("gadget", 5), ("inputs", 3), ("rand", 3), ("dense-neg", 1), ("overlap-maa", 0.3), ("rand-wide", 1), ("rings", 2)]
+    cl = [("gadget", 5), ("inputs", 3), ("rand", 3), ("dense-neg", 1), ("overlap-maa", 0.3), ("rand-wide", 1), ("rings", 2), ("cond-maa", 2)]
     nets = gen.corpus() + [gen.draw(rng, cl, nmax) for _ in range(count)]
     kinds = list(WEIGHTS)
     w = [WEIGHTS[k] for k in kinds]
